@@ -7,6 +7,7 @@ import (
 	"testing"
 
 	"github.com/mattn/anko/env"
+	"github.com/mattn/anko/parser"
 
 	"verif/internal/ank"
 	"verif/internal/h"
@@ -15,7 +16,10 @@ import (
 // script functions that apply one operation to their parameter
 const funcsSrc = "fset = func(p, i, x) { p[i] = x }\n" +
 	"fapp = func(p, x) { p += x }\n" +
-	"fdel = func(p, k) { delete(p, k) }"
+	"fdel = func(p, k) { delete(p, k) }\n" +
+	"id = func(x) { return x }\n" +
+	"hs = make(struct{X interface})\n" +
+	"hs.X = [1, 2]"
 
 // exec is one rendered step.
 type rendered struct {
@@ -104,8 +108,20 @@ func render(m *mirror, st *Step) rendered {
 		r.src = t.src + "[" + s + "] = " + st.V.src()
 		r.plan = planWrite(t, st)
 	case "app":
-		if st.V == nil {
-			return bad("invalid_step")
+		// right operand: a literal or the variable of another slot
+		var rhs *target
+		var rsrc string
+		if st.R != nil {
+			if *st.R < 0 || *st.R >= len(m.vars) || m.kinds[*st.R] == "st" {
+				return bad("invalid_step")
+			}
+			rt := m.target(*st.R, "")
+			rhs, rsrc = &rt, rt.src
+		} else {
+			if st.V == nil {
+				return bad("invalid_step")
+			}
+			rsrc = st.V.src()
 		}
 		if st.Form == "=+" {
 			d, why := dest()
@@ -113,11 +129,38 @@ func render(m *mirror, st *Step) rendered {
 				return bad(why)
 			}
 			r.dst = st.W
-			r.src = d.src + " = " + t.src + " + " + st.V.src()
-			r.plan = planApp(t, *d, st)
+			left := t
+			if st.LE != "" {
+				// the left operand is a fresh empty slice of T's type
+				if t.cls != "slice" || st.Fld != "" {
+					return bad("invalid_step")
+				}
+				fresh := reflect.New(t.v.Type()).Elem()
+				c := 0
+				switch st.LE {
+				case "lit":
+					if t.kind == "us" {
+						left.src = "[]"
+					} else {
+						left.src = typeSrc[t.kind] + "{}"
+					}
+				case "make0":
+					left.src = "make(" + typeSrc[t.kind] + ", 0)"
+				case "makecap":
+					c = 4
+					left.src = "make(" + typeSrc[t.kind] + ", 0, 4)"
+				default:
+					return bad("invalid_step")
+				}
+				fresh.Set(reflect.MakeSlice(t.v.Type(), 0, c))
+				left.v = fresh
+				left.slot = -1
+			}
+			r.src = d.src + " = " + left.src + " + " + rsrc
+			r.plan = planApp(left, *d, st, rhs)
 		} else {
-			r.src = t.src + " += " + st.V.src()
-			r.plan = planApp(t, t, st)
+			r.src = t.src + " += " + rsrc
+			r.plan = planApp(t, t, st, rhs)
 		}
 	case "slice":
 		var body string
@@ -211,6 +254,7 @@ func render(m *mirror, st *Step) rendered {
 		if st.Fld != "" {
 			return bad("field_passing_unspecified")
 		}
+		var callRhs *target
 		switch st.Form {
 		case "set":
 			s, ok := keyOrIdx()
@@ -219,6 +263,15 @@ func render(m *mirror, st *Step) rendered {
 			}
 			r.src = "fset(" + t.src + ", " + s + ", " + st.V.src() + ")"
 		case "app":
+			if st.R != nil {
+				if *st.R < 0 || *st.R >= len(m.vars) || m.kinds[*st.R] == "st" {
+					return bad("invalid_step")
+				}
+				rt := m.target(*st.R, "")
+				callRhs = &rt
+				r.src = "fapp(" + t.src + ", " + rt.src + ")"
+				break
+			}
 			if st.V == nil {
 				return bad("invalid_step")
 			}
@@ -231,7 +284,7 @@ func render(m *mirror, st *Step) rendered {
 		default:
 			return bad("invalid_step")
 		}
-		r.plan = planCall(t, st)
+		r.plan = planCall(t, st, callRhs)
 	case "mread":
 		r.src = t.src + "." + st.Name
 		r.plan = planMread(t, st)
@@ -400,7 +453,9 @@ func oracle(c Case, o *h.Obs) *h.Fail {
 		for _, ic := range r.idx {
 			class("idx:%s:%s", r.t.cls, ic)
 		}
-		if st.V != nil && (st.Op == "write" || st.Op == "app" || st.Op == "mwrite" || st.Op == "call") {
+		if st.R != nil {
+			class("val:%s:variable_%s", kind, m.kinds[*st.R])
+		} else if st.V != nil && (st.Op == "write" || st.Op == "app" || st.Op == "mwrite" || st.Op == "call") {
 			class("val:%s:%s", kind, st.V.class())
 		}
 		if st.Key != nil && r.t.cls == "map" {
@@ -413,6 +468,10 @@ func oracle(c Case, o *h.Obs) *h.Fail {
 
 		got, err := ank.Exec(e, r.src)
 		executed++
+		if _, isParse := err.(*parser.Error); isParse {
+			// the generator only spells statements the grammar accepts
+			return h.Failf("C10|generator|parse-error|"+opName, "%s", failMsg(r.src, "parse error: %v", err))
+		}
 		if hp, ok := ank.IsHostPanic(err); ok {
 			return h.Failf("C10|panic|"+opName+"|"+kind, "%s", failMsg(r.src, "escaped Go panic: %v", hp.Value))
 		}
@@ -486,11 +545,11 @@ func oracle(c Case, o *h.Obs) *h.Fail {
 				live[st.T] = true
 				shared[st.T] = false
 			}
-			if p.mutates && st.Op != "new" && st.Op != "alias" && st.Op != "slice" && shared[st.T] {
+			if p.mutates && st.Op != "new" && st.Op != "alias" && st.Op != "slice" && st.LE == "" && shared[st.T] {
 				mutAliased = true
 				class("mutation_on_shared:%s", st.Op)
 			}
-			if r.dst >= 0 && r.dst != st.T {
+			if r.dst >= 0 && r.dst != st.T && st.LE == "" {
 				shared[st.T], shared[r.dst] = true, true
 			}
 			if r.dst >= 0 && m.kinds[r.dst] == "str" {
